@@ -4,6 +4,8 @@ CONSTANTS
   Containers = {1}
   Nums = {4, 5, 6}
   DevFirstWins = FALSE
+  HdrChoices <- HdrIdentity
+  DevTieByCompletion = FALSE
   DeferU = {4, 5, 6}
   DevStopAtFirstFailure = TRUE
   DropU = {}
